@@ -104,3 +104,15 @@ Lemma distort_is_source : forall a b x y,
   distort_with DScamp a b x y = src_distort true (poly2d a x y) (poly2d b x y) x y /\
   distort_with DSip a b x y = src_distort false (poly2d a x y) (poly2d b x y) x y.
 Proof. intros. split; reflexivity. Qed.
+
+(* root finding: the residual handed to fsolve (_lonlatdiff) and what _findxy_one / _fsolve_xy do with it (start value
+   = target = the undistorted inverse; the result of fsolve is returned unchanged; the translator refuses any added
+   branch or fallback in _fsolve_xy, _findxy_one, _findxy) *)
+Lemma lonlatdiff_is_source : forall w target xy,
+  lonlatdiff w target xy = src_lonlatdiff (fun x y => image2sky w x y true) (sky2image_nodistort w) target xy.
+Proof. intros. reflexivity. Qed.
+
+Lemma findxy_one_is_source : forall fsolve w s lon lat xtol,
+  snd (findxy_one fsolve w s lon lat xtol) =
+  src_findxy_one (sky2image_nodistort w) fsolve (lonlatdiff w) lon lat xtol.
+Proof. intros. reflexivity. Qed.
